@@ -93,6 +93,7 @@ type uciRun struct {
 	bestmoves     int
 	readyoks      int
 	guiDone       bool
+	loopThread    string
 	lastInfoDepth int
 }
 
@@ -106,6 +107,9 @@ func (r *uciRun) observe(step int) {
 	for r.consumed < len(r.sent)-len(r.in) {
 		r.log("consumed", r.sent[r.consumed])
 		r.consumed++
+		if n := vs.LastRun(); n != "" {
+			r.loopThread = n // whoever just took a line from the input channel is the command loop
+		}
 	}
 	for r.out != nil && !r.outClosed {
 		select {
@@ -459,7 +463,7 @@ func (r *uciRun) verdictC16(s *vs.Sched) explore.Outcome {
 	// quiescent end: nothing is enabled any more
 	loopParked, guiParked := "", ""
 	for _, b := range s.Blocked {
-		if strings.HasPrefix(b, "g1:") { // the driver loop is the first goroutine started
+		if r.loopThread != "" && strings.HasPrefix(b, r.loopThread+":") {
 			loopParked = b
 		}
 		if strings.HasPrefix(b, "main:") {
